@@ -70,6 +70,17 @@ WORKLOADS = {
         _f("f0", ["x0"], ["a"], None, {"x0": "whole"}, []),
         {**_f("f1", ["a"], ["b0", "b1"], None, {"a": "whole"}, []), "picker": True},
         _f("f2", ["b1", "x0"], ["c"], None, {"b1": "whole", "x0": "whole"}, [])]},
+    # a function without MapSpec whose result IS None (a side-effect step: "upload", "report"): stored None is stored
+    "no-mapspec-none": {"sizes": SZ, "roots": {"x0": {"axes": [], "kind": "scalar"}}, "funcs": [
+        {**_f("f0", ["x0"], ["a"], None, {"x0": "whole"}, []), "always_none": True},
+        _f("f1", ["a", "x0"], ["b"], None, {"a": "whole", "x0": "whole"}, []),
+        {**_f("f2", ["b"], ["c"], None, {"b": "whole"}, []), "always_none": True},
+        _f("f3", ["c", "b"], ["d"], None, {"c": "whole", "b": "whole"}, [])]},
+    # whole-array inputs of complex / object dtype that contain NaN
+    "nan-inputs": {"sizes": SZ, "nan_inputs": True,
+                   "roots": {"x0": {"axes": ["i"], "kind": "list"}, "x1": {"axes": [], "kind": "scalar"}, "x2": {"axes": [], "kind": "scalar"}}, "funcs": [
+        _f("f0", ["x0", "x1"], ["y0"], "x0[i] -> y0[i]", {"x0": ["i"], "x1": "whole"}, ["i"]),
+        _f("f1", ["y0", "x2"], ["y1"], None, {"y0": "whole", "x2": "whole"}, [])]},
     # long enough for holes in the set of missing elements to matter (every second element fails in the first run)
     "long-map": {"sizes": {**SZ, "i": 14}, "roots": {"x0": {"axes": ["i"], "kind": "list"}}, "funcs": [
         _f("f0", ["x0"], ["y0"], "x0[i] -> y0[i]", {"x0": ["i"]}, ["i"]),
@@ -78,7 +89,7 @@ WORKLOADS = {
         _f("f0", ["x0"], ["y0"], "x0[i] -> y0[j, i]", {"x0": ["i"]}, ["j", "i"], ["j"], [2], "pipefunc", True),
         _f("f1", ["y0"], ["t"], "y0[:, i] -> t[i]", {"y0": [None, "i"]}, ["i"])]},
 }
-QUICK_W = ["map3+reduce", "tuple-out", "internal-axis", "no-mapspec-picker"]
+QUICK_W = ["map3+reduce", "tuple-out", "internal-axis", "no-mapspec-picker", "no-mapspec-none", "nan-inputs"]
 STORAGES = ["file_array", "dict", "shared_memory_dict"]
 
 
@@ -131,7 +142,7 @@ def _map_child(case, storage, mode, root, log, cleanup, out, crash_at=None, tear
             signal.alarm(60)
             try:
                 p0 = mapgen.build_pipeline(case, log=log + ".prelude", fault=prelude_fault)
-                p0.map(inputs if inputs is not None else mapgen.make_inputs(case), run_folder=root,
+                p0.map(inputs if inputs is not None else _inputs(case), run_folder=root,
                        internal_shapes=mapgen.internal_shapes_arg(case), storage=_st(case, storage), cleanup=True, parallel=True)
                 res["prelude"] = "returned"
             except BaseException as e:  # noqa: BLE001
@@ -160,7 +171,7 @@ def _map_child(case, storage, mode, root, log, cleanup, out, crash_at=None, tear
                 ex = ProcessPoolExecutor(2 if mode == "process" else 1, mp_context=multiprocessing.get_context("fork"))
                 kw = {"executor": ex}
             try:
-                r = pipeline.map(inputs if inputs is not None else mapgen.make_inputs(case), run_folder=root,
+                r = pipeline.map(inputs if inputs is not None else _inputs(case), run_folder=root,
                                  internal_shapes=mapgen.internal_shapes_arg(case), storage=_st(case, storage), cleanup=cleanup, **kw)
             finally:
                 if ex is not None:
@@ -193,14 +204,28 @@ def _map_child(case, storage, mode, root, log, cleanup, out, crash_at=None, tear
     return _child(fn)
 
 
-def _inputs_variant(case, tagv):
+def _inputs(case):
+    """The inputs of a workload; 'nan_inputs' replaces whole-array arguments by a complex and an object array that contain
+    NaN (NaN != NaN: the comparison of a resumed run's inputs with the recorded ones must still find them equal)."""
     inp = mapgen.make_inputs(case)
+    if case.get("nan_inputs"):
+        inp["x1"] = np.array([1 + 2j, complex(float("nan"), 0.0), 3j])
+        o = np.empty(3, dtype=object)
+        o[:] = ["p", float("nan"), 2.5]
+        inp["x2"] = o
+    return inp
+
+
+def _inputs_variant(case, tagv):
+    inp = _inputs(case)
 
     def ren(x):
         if isinstance(x, str):
             return x + tagv
         if isinstance(x, list):
             return [ren(y) for y in x]
+        if not isinstance(x, np.ndarray):
+            return x
         a = np.empty(x.shape, dtype=object)
         for idx in np.ndindex(*x.shape):
             a[idx] = ren(x[idx])
@@ -417,7 +442,7 @@ def run_case(desc):
         v.bad("record-run-failed", "uninterrupted recording run failed", desc=desc)
         return v.result(evaluations=v.counters.get("resumes", 0), )
     case = WORKLOADS[desc["w"]]
-    env, exp_calls = mapgen.oracle(case)
+    env, exp_calls = mapgen.oracle(case, _inputs(case))
     with tmpdir("c05-") as scratch:
         root = os.path.join(scratch, "run")
         trace = os.path.join(scratch, "crash.trace")
